@@ -472,6 +472,7 @@ def oracle_b(ctx: Ctx, cfg: dict[str, Any], x: S.Exec, tier: str) -> Any:
         ctx.fail(key, f"{msg}; cfg {cfg}", rep)
     ctx.extra["b_backlog_at_exit"] += sum(1 for c in w.conns if not c.accepted)
     ctx.extra["b_forced_closes"] += 1 if w.forced else 0
+    ctx.extra["b_forced_closes_with_idle_timeout"] += 1 if w.forced and w.T is not None else 0
     ctx.extra["b_self_exits"] += 1 if self_exit else 0
     ctx.extra["b_quiescent_jumps"] += w.qjumps
     return (
@@ -495,7 +496,8 @@ def configs_b(ctx: Ctx) -> list[dict[str, Any]]:
         add(10.0, ["hold"], [60.0])
         add(10.0, ["quick"], [10.0, 50.0], bound=1)
         add(10.0, ["hold"], [5.0, 5.0], bound=1)
-        add(None, ["hold", "quick"], [100.0], bound=1)
+        add(None, ["hold"], [100.0])
+        add(None, ["hold", "quick"], [], bound=0)
         add(100.0, ["hold"], [100.0], bound=1, serve_raises=True)
         add(100.0, ["quick", "quick"], [100.0], bound=0)
         add(100.0, ["hold", "quick"], [100.0], bound=0, max_conn=1)
@@ -518,8 +520,9 @@ def configs_b(ctx: Ctx) -> list[dict[str, Any]]:
         add(idle, ["quick"], clocks[0], bound=2, trace=True)
         add(idle, ["hold"], clocks[0], bound=2, trace=True)
         add(idle, ["hold", "quick"], [], bound=1, trace=True)
-    add(None, ["hold", "quick"], [100.0])
-    add(None, ["hold", "hold"], [100.0], bound=1, max_conn=1)
+    add(None, ["hold"], [100.0], bound=3)
+    add(None, ["hold", "quick"], [], bound=1)
+    add(None, ["hold", "hold"], [], bound=0, max_conn=1)
     return out
 
 
@@ -942,7 +945,7 @@ def _explore(ctx: Ctx, part: str, cfg: dict[str, Any], setup: Any, orc: Any, tra
 def run(ctx: Ctx) -> None:
     ctx.extra.update({
         "a_schedules": 0, "a_configs": 0, "a_deadlocks": 0, "b_schedules": 0, "b_configs": 0, "b_deadlocks": 0,
-        "max_choice_points": 0, "max_steps": 0, "a_spawns": 0, "a_probes": 0, "b_backlog_at_exit": 0, "b_forced_closes": 0,
+        "max_choice_points": 0, "max_steps": 0, "a_spawns": 0, "a_probes": 0, "b_backlog_at_exit": 0, "b_forced_closes": 0, "b_forced_closes_with_idle_timeout": 0,
         "b_self_exits": 0, "b_quiescent_jumps": 0,
     })
     with bound_launcher():
@@ -958,7 +961,7 @@ def run(ctx: Ctx) -> None:
 
 
 def replay(ctx: Ctx, case: dict[str, Any]) -> None:
-    ctx.extra.update({"a_spawns": 0, "a_probes": 0, "b_backlog_at_exit": 0, "b_forced_closes": 0, "b_self_exits": 0, "b_quiescent_jumps": 0})
+    ctx.extra.update({"a_spawns": 0, "a_probes": 0, "b_backlog_at_exit": 0, "b_forced_closes": 0, "b_forced_closes_with_idle_timeout": 0, "b_self_exits": 0, "b_quiescent_jumps": 0})
     cfg = case["cfg"]
     tier = case.get("tier", "quick")
     ec = cfg.get("env_cost", 1)
